@@ -909,22 +909,11 @@ func c19_repeatFix(a []object.Object) {
 	}
 }
 
-func c19_repeatKnown(a []object.Object) (string, string) {
-	n := c19_iOf(a[1])
-	l := int64(len(c19_sOf(a[0])))
-	if n < 0 || (n > 64 && l >= 2) {
-		return "C19-repeat-panics", "panic"
-	}
-	return "", ""
-}
-
-func c19_runeArgKnown(a []object.Object) (string, string) {
-	s := c19_sOf(a[1])
-	if len(s) > 1 && utf8.RuneCountInString(s) == 1 && utf8.ValidString(s) {
-		return "C19-bytes-rune-multibyte", "err"
-	}
-	return "", ""
-}
+// (Before the repairs "fix: strings.repeat, bytes.repeat and byte_slice.repeat return an error
+// instead of panicking" and "fix: bytes.contains_rune and bytes.index_rune accept a multi-byte
+// character" two functions stood here that attributed a panic of repeat and the refusal of a
+// multi-byte character to the findings C19-repeat-panics / C19-bytes-rune-multibyte.  Both are
+// repaired: a recurrence is an unlisted violation.)
 
 // the single valid character denoted by s, if any
 func c19_singleRune(s string) (rune, bool) {
@@ -970,7 +959,7 @@ func c19Specs() []c19_fnSpec {
 		ss("has_suffix", func(a, b string) string { return c19_vB(strings.HasSuffix(a, b)) }),
 		ss("count", func(a, b string) string { return c19_vInt(strings.Count(a, b)) }),
 		ss("compare", func(a, b string) string { return c19_vInt(strings.Compare(a, b)) }),
-		{mod: "strings", name: "repeat", kinds: "sc", fix: c19_repeatFix, known: c19_repeatKnown, spec: func(a []object.Object) string {
+		{mod: "strings", name: "repeat", kinds: "sc", fix: c19_repeatFix, spec: func(a []object.Object) string {
 			return c19_guarded(func() string { return c19_vS(strings.Repeat(c19_sOf(a[0]), int(c19_iOf(a[1])))) })
 		}},
 		{mod: "strings", name: "join", kinds: "ls", spec: func(a []object.Object) string { return c19_vS(strings.Join(c19_lOf(a[0]), c19_sOf(a[1]))) }},
@@ -1061,11 +1050,6 @@ func c19Specs() []c19_fnSpec {
 				return c19_vI(v)
 			}
 			return c19_vF(math.Abs(c19_fOf(a[0])))
-		}, known: func(a []object.Object) (string, string) {
-			if x, ok := a[0].(*object.Float); ok && x.Value() == 0 && math.Signbit(x.Value()) {
-				return "C19-math-abs-negzero", c19_vF(math.Copysign(0, -1))
-			}
-			return "", ""
 		}}),
 		noByte(f1("sqrt", math.Sqrt)), noByte(f1("sin", math.Sin)), noByte(f1("cos", math.Cos)), f1("tan", math.Tan),
 		f1("log", math.Log), f1("log10", math.Log10), f1("log2", math.Log2), f1("round", math.Round),
@@ -1087,11 +1071,6 @@ func c19Specs() []c19_fnSpec {
 		}, skip: func(a []object.Object) bool { // Pow10 is defined on ints: floats only when they denote a small one
 			x, ok := a[0].(*object.Float)
 			return ok && (x.Value() != math.Trunc(x.Value()) || math.Abs(x.Value()) > 1e6 || x.Value() != x.Value())
-		}, known: func(a []object.Object) (string, string) {
-			if n, ok := a[0].(*object.Int); ok && float64(n.Value()) >= 9223372036854775808.0 {
-				return "C19-math-pow10-maxint", c19_vF(math.Pow10(int(float64(n.Value()))))
-			}
-			return "", ""
 		}},
 	)
 	// bytes module + byte_slice methods
@@ -1113,13 +1092,13 @@ func c19Specs() []c19_fnSpec {
 		{mod: "bytes", name: "contains_any", kinds: "Bs", spec: func(a []object.Object) string {
 			return c19_vB(bytes.ContainsAny([]byte(c19_sOf(a[0])), c19_sOf(a[1])))
 		}},
-		{mod: "bytes", name: "contains_rune", kinds: "Bs", known: c19_runeArgKnown, spec: func(a []object.Object) string {
-			r, ok := c19_singleRune(c19_sOf(a[1]))
+		{mod: "bytes", name: "contains_rune", kinds: "Bs", spec: func(a []object.Object) string {
+			r, ok := c19_singleRune(c19_sOf(a[1])) // anything but one well-formed character (a lone byte >= 0x80 too) is refused
 			if !ok {
 				return "err"
 			}
 			return c19_vB(bytes.ContainsRune([]byte(c19_sOf(a[0])), r))
-		}, skip: func(a []object.Object) bool { s := c19_sOf(a[1]); return len(s) == 1 && s[0] >= 0x80 }},
+		}},
 		bb("count", func(a, b []byte) string { return c19_vInt(bytes.Count(a, b)) }),
 		bb("has_prefix", func(a, b []byte) string { return c19_vB(bytes.HasPrefix(a, b)) }),
 		bb("has_suffix", func(a, b []byte) string { return c19_vB(bytes.HasSuffix(a, b)) }),
@@ -1134,14 +1113,14 @@ func c19Specs() []c19_fnSpec {
 			}
 			return c19_vInt(bytes.IndexByte([]byte(c19_sOf(a[0])), c[0]))
 		}},
-		{mod: "bytes", name: "index_rune", kinds: "Bs", known: c19_runeArgKnown, spec: func(a []object.Object) string {
+		{mod: "bytes", name: "index_rune", kinds: "Bs", spec: func(a []object.Object) string {
 			r, ok := c19_singleRune(c19_sOf(a[1]))
 			if !ok {
 				return "err"
 			}
 			return c19_vInt(bytes.IndexRune([]byte(c19_sOf(a[0])), r))
-		}, skip: func(a []object.Object) bool { s := c19_sOf(a[1]); return len(s) == 1 && s[0] >= 0x80 }},
-		{mod: "bytes", name: "repeat", kinds: "Bc", fix: c19_repeatFix, known: c19_repeatKnown, spec: func(a []object.Object) string {
+		}},
+		{mod: "bytes", name: "repeat", kinds: "Bc", fix: c19_repeatFix, spec: func(a []object.Object) string {
 			return c19_guarded(func() string { return c19_vBy(bytes.Repeat([]byte(c19_sOf(a[0])), int(c19_iOf(a[1])))) })
 		}},
 		{mod: "bytes", name: "replace", kinds: "Bbbk", spec: func(a []object.Object) string {
@@ -1226,13 +1205,13 @@ func c19Specs() []c19_fnSpec {
 	S, I, F := object.NewString, object.NewInt, object.NewFloat
 	BS := func(s string) object.Object { return object.NewByteSlice([]byte(s)) }
 	fixed := map[string][][]object.Object{
-		"strings.repeat":           {{S("a"), I(-1)}, {S("ab"), I(math.MaxInt64)}, {S("ab"), I(3)}, {S(""), I(math.MaxInt64)}, {S("é"), I(0)}},
-		"bytes.repeat":             {{BS("a"), I(-1)}, {BS("ab"), I(math.MaxInt64)}, {BS("ab"), I(2)}},
-		"byte_slice.repeat":        {{BS("a"), I(-1)}, {BS("ab"), I(2)}},
-		"bytes.contains_rune":      {{BS("caf\xc3\xa9"), S("é")}, {BS("cafe"), S("e")}},
-		"bytes.index_rune":         {{BS("caf\xc3\xa9"), S("é")}, {BS("cafe"), S("e")}},
-		"byte_slice.contains_rune": {{BS("caf\xc3\xa9"), S("é")}},
-		"byte_slice.index_rune":    {{BS("caf\xc3\xa9"), S("日")}},
+		"strings.repeat":           {{S("a"), I(-1)}, {S("ab"), I(math.MaxInt64)}, {S("ab"), I(3)}, {S(""), I(math.MaxInt64)}, {S("é"), I(0)}, {S("abc"), I(math.MaxInt64/3 + 1)}, {S("a"), I(math.MinInt64)}, {S(""), I(-1)}},
+		"bytes.repeat":             {{BS("a"), I(-1)}, {BS("ab"), I(math.MaxInt64)}, {BS("ab"), I(2)}, {BS("abc"), I(math.MaxInt64/3 + 1)}, {BS(""), I(math.MaxInt64)}, {BS(""), I(-1)}},
+		"byte_slice.repeat":        {{BS("a"), I(-1)}, {BS("ab"), I(2)}, {BS("ab"), I(math.MaxInt64)}, {BS("abc"), I(math.MaxInt64/3 + 1)}, {BS(""), I(math.MaxInt64)}, {BS("a"), I(math.MinInt64)}},
+		"bytes.contains_rune":      {{BS("caf\xc3\xa9"), S("é")}, {BS("cafe"), S("e")}, {BS("caf\xe9"), S("\xe9")}, {BS("a\xffb"), S("\xff")}, {BS("a\xffb"), S("\ufffd")}, {BS("ab"), S("")}, {BS("éé"), S("éé")}, {BS("x😀"), S("😀")}, {BS("\xed\xa0\x80"), S("\xed\xa0\x80")}},
+		"bytes.index_rune":         {{BS("caf\xc3\xa9"), S("é")}, {BS("cafe"), S("e")}, {BS("caf\xe9"), S("\xe9")}, {BS("a\xffb"), S("\xff")}, {BS("a\xffb"), S("\ufffd")}, {BS("ab"), S("")}, {BS("éé"), S("éé")}, {BS("x😀"), S("😀")}, {BS("\xc3"), S("\xc3")}},
+		"byte_slice.contains_rune": {{BS("caf\xc3\xa9"), S("é")}, {BS("caf\xe9"), S("\xe9")}, {BS("日本"), S("本")}},
+		"byte_slice.index_rune":    {{BS("caf\xc3\xa9"), S("日")}, {BS("caf\xc3\xa9"), S("é")}, {BS("a\xffb"), S("\xff")}},
 		"math.abs":                 {{F(math.Copysign(0, -1))}, {I(math.MinInt64)}, {F(-2.5)}, {F(math.NaN())}},
 		"math.pow10":               {{I(math.MaxInt64)}, {I(math.MaxInt64 - 512)}, {I(math.MaxInt64 - 513)}, {I(308)}, {I(309)}, {I(-324)}, {I(math.MinInt64)}},
 		"strings.split":            {{S("aé"), S("")}, {S(""), S("")}, {S("a,b"), S(",")}},
@@ -1373,7 +1352,7 @@ func c19Wrappers(e *Env) {
 		perFn = 12000
 		scriptEvery = 4
 	}
-	type glueReq struct{ c, req, real string }
+	type glueReq struct{ c, req, real, what string }
 	var glue []glueReq
 	for si := range specs {
 		sp := &specs[si]
@@ -1412,7 +1391,8 @@ func c19Wrappers(e *Env) {
 			if arityOK && wellTyped && sp.known != nil {
 				finding, deviation = sp.known(a)
 			}
-			if want == "gopanic" {
+			goPanicked := want == "gopanic"
+			if goPanicked {
 				want = "err" // outside the Go function's domain: a script error, never a panic
 			}
 			check := func(route, got string) {
@@ -1442,7 +1422,24 @@ func c19Wrappers(e *Env) {
 				} else {
 					goRes = "n"
 				}
-				glue = append(glue, glueReq{c, "C19\tglue\t" + sp.name + "\t" + c19_argsTok(a) + "\t" + goRes, viaObj})
+				glue = append(glue, glueReq{c, "C19\tglue\t" + sp.name + "\t" + c19_argsTok(a) + "\t" + goRes, viaObj, "strings module wrapper vs C19.wrap (glue model)"})
+			}
+			// LibSpec, the hypothesis of C19_no_panic about the Go library: the real strings.Repeat
+			// panics exactly where the model's goPanics says
+			if arityOK && wellTyped && fnName == "strings.repeat" {
+				glue = append(glue, glueReq{c, "C19\tpanics\trepeat\t" + c19_argsTok(a), strconv.FormatBool(goPanicked), "strings.Repeat panics vs C19.goPanics (LibSpec)"})
+			}
+			// the repaired argument conventions that the Lean model carries (with their pre-fix
+			// forms as historical definitions): which rune arguments are accepted; abs on the bits
+			if arityOK && wellTyped && (sp.name == "contains_rune" || sp.name == "index_rune") {
+				glue = append(glue, glueReq{c, "C19\trunearg\t" + c19_hx(c19_sOf(a[1])), strconv.FormatBool(c19_coarse(viaObj) != "err"),
+					"rune argument accepted by " + fnName + " vs C19.runeArgOK"})
+			}
+			if arityOK && wellTyped && fnName == "math.abs" && len(a) == 1 {
+				if x, ok := a[0].(*object.Float); ok && x.Value() == x.Value() { // (outcome tokens show one NaN for all NaNs)
+					glue = append(glue, glueReq{c, "C19\tabsbits\t" + strconv.FormatUint(math.Float64bits(x.Value()), 10), strings.TrimPrefix(viaObj, "val d"),
+						"math.abs on a float vs C19.absBits"})
+				}
 			}
 		}
 		for _, a := range sp.fixed {
@@ -1506,9 +1503,17 @@ func c19Wrappers(e *Env) {
 		model := strings.ReplaceAll(rep, "\t", " ")
 		model = strings.NewReplacer("argsErr", "err:args", "typeErr", "err:type").Replace(model)
 		if model != glue[i].real {
-			e.R.Mismatch(glue[i].c, glue[i].real, model, "strings module wrapper vs C19.wrap (glue model)")
+			e.R.Mismatch(glue[i].c, glue[i].real, model, glue[i].what)
 		}
-		e.R.H("glue-model", strings.SplitN(model, " ", 2)[0])
+		if strings.HasPrefix(glue[i].req, "C19\tglue\t") {
+			e.R.H("glue-model", strings.SplitN(model, " ", 2)[0])
+		} else {
+			kind := strings.SplitN(glue[i].req, "\t", 3)[1]
+			if kind == "runearg" || kind == "panics" {
+				kind += "=" + model
+			}
+			e.R.H("argument-convention-model", kind)
+		}
 	}
 }
 
